@@ -5,6 +5,7 @@ mod db;
 mod enc;
 mod fault;
 mod hk;
+mod column;
 mod crash;
 mod sched;
 mod sqlrun;
@@ -27,6 +28,7 @@ fn main() {
         "trace" => tracecmd::main(&args[2..]),
         "sched" => sched::main(&args[2..]),
         "fault" => fault::main(&args[2..]),
+        "column" => column::main(&args[2..]),
         other => {
             eprintln!("unknown driver {other}");
             2
